@@ -97,6 +97,11 @@ CLAIMED["C19"] = dict(
    text="For every pair of programs from two pools of 12 (16) programs with colliding names (definitions, assignments, stateful closures, vector mutation, define-syntax of new, equal and bundled keywords, failing imports, run-time errors, uses of derived forms) every interleaving of A's forms on instance 1 with B's forms on instance 2 is executed on a fresh thread; both programs' per-form results must equal those of the program run alone, the in-progress sets (hook H2) must be empty, and after every step a newly created third instance must evaluate a form built from let/cond/when/or correctly.",
    note="sequential interleavings of two operation lists on one thread: the crate is single-threaded (Rc/RefCell), there are no scheduler interleavings to explore",
    design="7/C19")
+CLAIMED["C02"] = dict(
+   technique="exhaustive enumeration of tail-context compositions x loop shapes, with a per-iteration state invariant (machine stack depth and live heap sampled by a native probe at every iteration)",
+   text="Every composition of the 17 tail contexts of length 1-2 (thorough 3) x 6 loop shapes (self, 2- and 3-way mutual, procedure parameter, variadic, closure-returned) is run for N = 64 and N = 20000 / 3000 iterations on the real interpreter; a native procedure called in every iteration samples the address of a local (real stack depth) and the evaluating thread's live heap. Neither may be larger in the second half of the iterations than in the first (stack byte-exact, heap within 256 B), and the result must be the closed form.",
+   note="the no-growth invariant observed at every iteration is what carries the claim beyond the executed N; tail calls through apply are a recorded known finding",
+   design="7/C02")
 NOT_YET = "check not built yet (build in progress, see DESIGN.md section 12)"
 NA = {}
 
